@@ -74,14 +74,14 @@ C10_CLASS = ("InvNoOrphan",)
 
 
 def owns_c01(why, evt, r):
-    if any(v in C01_CLASS for v in r.violated):
-        return True
+    if r.violated:
+        return any(v in C01_CLASS for v in r.violated)
     return bool(r.rejected) and evt.get("e") in ("commit", "meta", "create", "term", "sync", "call", "reset", "dropw", "man")
 
 
 def owns_c10(why, evt, r):
-    if any(v in C10_CLASS for v in r.violated):
-        return True
+    if r.violated:
+        return any(v in C10_CLASS for v in r.violated)
     return bool(r.rejected) and evt.get("e") in ("delete", "gc", "end", "regs", "fresh")
 
 
